@@ -52,7 +52,9 @@ pub fn mk_core(me: u8, stakes: &[Stake]) -> Env {
     let (tx_message, rx_message) = channel(10);
     let (tx_loopback, rx_loopback) = channel(10);
     let (tx_proposer, rx_proposer) = channel(10);
-    let (tx_commit, rx_commit) = channel(10);
+    // capacity 1, as in the repository's own core tests: the application may be arbitrarily slow, so a commit path that does
+    // not WAIT for room (try_send) loses blocks here, while `send().await` delivers everything in order (see shims/tokio)
+    let (tx_commit, rx_commit) = channel(1);
     let (tx_mempool, rx_mempool) = channel(10);
     let (tx_sync, rx_sync) = channel(10);
     let name = key(me);
